@@ -6,6 +6,8 @@ package main
 
 import (
 	"encoding/json"
+	"os"
+	"sort"
 	"fmt"
 	"io"
 	"net/http"
@@ -151,4 +153,55 @@ func (cr *caseRun) statsViews() {
 	cr.emitView(false, 0, pickC(), cr.r.Bool())
 	cr.emitView(cr.r.Bool(), pickT(), pickC(), true)
 	cr.emitView(true, 0, pickC(), false)
+}
+
+// the disk-queue files present in the data path, by owner (topic id; 0 = the topic's own
+// queue, c = channel c): after a delete none may be left, an ephemeral queue never has any
+func (cr *caseRun) recordFiles() {
+	ents, err := os.ReadDir(cr.opts.DataPath)
+	if err != nil {
+		return
+	}
+	own := map[int]map[int]bool{}
+	for _, e := range ents {
+		i := strings.Index(e.Name(), ".diskqueue.")
+		if i < 0 {
+			continue
+		}
+		name := e.Name()[:i]
+		t, c := name, ""
+		if j := strings.Index(name, ":"); j >= 0 {
+			t, c = name[:j], name[j+1:]
+		}
+		if own[tid(t)] == nil {
+			own[tid(t)] = map[int]bool{}
+		}
+		if c == "" {
+			own[tid(t)][0] = true
+		} else {
+			own[tid(t)][cid(c)] = true
+		}
+	}
+	ts := make([]int, 0, len(own))
+	for t := range own {
+		ts = append(ts, t)
+	}
+	sort.Ints(ts)
+	var parts []string
+	for _, t := range ts {
+		cs := make([]int, 0, len(own[t]))
+		for c := range own[t] {
+			cs = append(cs, c)
+		}
+		sort.Ints(cs)
+		ss := make([]string, len(cs))
+		for i, c := range cs {
+			ss[i] = strconv.Itoa(c)
+		}
+		parts = append(parts, fmt.Sprintf("(%d, [%s])", t, strings.Join(ss, ";")))
+	}
+	if len(parts) > 0 {
+		cr.tag("disk-queue-files-present")
+	}
+	cr.ev(fmt.Sprintf("EFiles [%s]", strings.Join(parts, ";")))
 }
